@@ -21,10 +21,13 @@ def gen_bundle_program(seed):
         scal = list(range(n_in))          # indices of scalar signal decls (typed inputs)
         bundles = {}                      # decl index -> set of member types
 
-        def scalar_operand():
+        def scalar_operand(members=()):
+            # a signal operand whose type is a member of the bundle is in the region of known finding S24
+            # (operand and bundle are not reliably kept on different colours)
+            free = [i for i in scal if decls[i][2] not in members]
             x = r.random()
-            if x < 0.5:
-                return ("var", r.choice(scal))
+            if x < 0.5 and free:
+                return ("var", r.choice(free))
             return ("int", r.choice([0, 1, 2, 3, 5, 10, 100, -1, -3]))
 
         def new_bundle(b, members):
@@ -50,7 +53,7 @@ def gen_bundle_program(seed):
             src = r.choice(list(bundles))
             if x < 0.3:
                 op = r.choice(["+", "-", "*", "/", "%", "AND", "OR", "XOR", "<<", ">>"])
-                opd = scalar_operand()
+                opd = scalar_operand(bundles[src])
                 if op in ("<<", ">>"):
                     opd = ("int", r.randint(0, 8))
                 if op in ("/", "%") and opd[0] == "int":
@@ -58,14 +61,11 @@ def gen_bundle_program(seed):
                 new_bundle(("barith", op, ("bref", src), opd), bundles[src])
             elif x < 0.5:
                 kk = None if r.random() < 0.6 else r.choice([1, 5, -1])
-                new_bundle(("bfilter", r.choice(CMPS), ("bref", src), scalar_operand(), kk), bundles[src])
+                new_bundle(("bfilter", r.choice(CMPS), ("bref", src), scalar_operand(bundles[src]), kk), bundles[src])
             elif x < 0.65:
-                # the condition signal must not be a member of the gated bundle: known finding S24
-                free = [i for i in scal if decls[i][2] not in bundles[src]]
-                if not free:
-                    continue
-                c = ("cmp", r.choice(CMPS), ("var", r.choice(free)), ("int", r.choice([0, 3, 5, 10])))
-                new_bundle(("bgate", c, ("bref", src)), bundles[src])
+                # gating `(s CMP c) : bundle` is known finding S24 (the condition signal travels on the same
+                # colour as the bundle and is forwarded with it): replayed as a witness, not generated
+                continue
             elif x < 0.75 and len(bundles) >= 1:
                 # merge with a fresh literal over unused types
                 free = [t for t in types if t not in bundles[src]]
